@@ -114,8 +114,18 @@ def gen_value(bsp, view: str, rng: random.Random, n: int, variant=None):
     if view == 'cubemaps':
         return [B.Cubemap(gen_vec(rng, integral=True), rng.choice([0, 1, 5, 9, 13])) for _ in range(n)]
     if view == 'textures':
-        return [rng.choice(['tools/toolsnodraw', 'Dev/Dev_Measuregeneric01', 'a', 'x/y/z_' + str(i)]) + str(i)
-                for i in range(n)]
+        # names that are prefixes / suffixes / substrings of each other and repeats: the string block shares storage
+        pool = ['tools/toolsnodraw', 'toolsnodraw', 'nodraw', 'nodraw2', 'tools/tools', 'Dev/Dev_Measuregeneric01', 'a', 'ab',
+                'b', 'aba', '', 'x/y/z_' + str(n)]
+        out = [rng.choice(pool) if rng.random() < 0.6 else rng.choice(pool) + str(i) for i in range(n)]
+        if n >= 2:
+            # always one pair "longer name first, then a proper prefix / suffix / infix of it"
+            base = rng.choice(['brick/brickwall001a', 'nodraw', 'ab'])
+            longer = base + '_b' if rng.random() < 0.5 else 'x' + base + 'y'
+            out[0], out[1] = longer, base
+            if n >= 3:
+                out[2] = 'x/' + base        # a name ending in an earlier one (may legitimately share its tail)
+        return out
     if view == 'visibility':
         clusters = [0, 1, 8, 9, 37, 300][n % 6] if variant is None else variant
         if clusters == 0:
